@@ -3,7 +3,7 @@
    reading()/writing() sessions.  Executable; no proofs here. *)
 From Coq Require Import NArith ZArith List Bool.
 Import ListNotations.
-From Molli Require Import Model.UKV.
+From Molli Require Import Model.UKV Model.UKVViews.
 Open Scope N_scope.
 
 Inductive sess := SIdle | SReading | SWriting.
@@ -25,7 +25,8 @@ Definition set_add (s : list bytes) (k : bytes) : list bytes := if existsb (beq 
 Definition set_union (s t : list bytes) : list bytes := fold_left set_add t s.
 
 Inductive berr := BUnsupported | BKey | BStruct | BIO | BAttr.   (* UnsupportedOperation | KeyError | struct.error | IOError(OSError) | AttributeError *)
-Inductive bres := BOk | BVal (v : bytes) | BKeys (ks : list bytes) | BErr (e : berr) | BOther.
+Inductive bres := BOk | BVal (v : bytes) | BKeys (ks : list bytes) | BErr (e : berr) | BOther
+  | BBool (x : bool) | BNum (n : N) | BItems (l : list (bytes * bytes)) | BVals (l : list bytes).
 
 Definition berr_of (e : err) : berr :=
   match e with EUnsupported => BUnsupported | EKey => BKey | EStruct => BStruct end.
@@ -98,9 +99,29 @@ Definition b_begin_r (f : bytes) (b : backend) : bytes * backend * bres :=
 Definition b_end_r (f : bytes) (b : backend) : bytes * backend * bres :=
   (f, mkb (close_ (uk b)) (has_uk b) (queue b) (bkeys b) (used b) (bufsize b) (ro b) SIdle, BOk).
 
+(* items() / values(): ((k, self.get(k)) for k in self.keys()) consumed to the end -- one get per listed key (a get of a
+   buffered key flushes the queue first); the first failing get aborts the generator *)
+Fixpoint b_items_loop (ks : list bytes) (f : bytes) (b : backend) (acc : list (bytes * bytes)) : bytes * backend * bres :=
+  match ks with
+  | [] => (f, b, BItems (rev acc))
+  | k :: ks' =>
+      let '(f1, b1, r) := b_get f b k in
+      match r with
+      | BVal v => b_items_loop ks' f1 b1 ((k, v) :: acc)
+      | _ => (f1, b1, r)
+      end
+  end.
+Definition b_items (f : bytes) (b : backend) : bytes * backend * bres := b_items_loop (bkeys b) f b [].
+Definition b_values (f : bytes) (b : backend) : bytes * backend * bres :=
+  let '(f', b', r) := b_items f b in (f', b', match r with BItems l => BVals (map snd l) | x => x end).
+
 Inductive bop :=
 | BeginW (i : nat) | EndW (i : nat) | BeginR (i : nat) | EndR (i : nat)
-| CPut (i : nat) (k v : bytes) | CGet (i : nat) (k : bytes) | CKeys (i : nat) | CFlush (i : nat).
+| CPut (i : nat) (k v : bytes) | CGet (i : nat) (k : bytes) | CKeys (i : nat) | CFlush (i : nat)
+| CContains (i : nat) (k : bytes)     (* k in c, k in c._backend *)
+| CLen (i : nat)                      (* len(c), c.n_items, len(c._backend) *)
+| CItems (i : nat) | CValues (i : nat)
+| CDup (i j : nat).                   (* cols[j] = pickle.loads(pickle.dumps(cols[i])) : every field but the lock travels *)
 
 Definition bworld := (bytes * list backend)%type.
 Definition b0 : backend := b_init 0%Z true.
@@ -119,6 +140,11 @@ Definition bstep (w : bworld) (o : bop) : bworld * bres :=
   | CKeys i => ((f, bs), BKeys (bkeys (nth i bs b0)))
   | CFlush i => on i (fun f b => let '(f', b', e) := flush f b in
                                  (f', b', match e with None => BOk | Some x => BErr x end))
+  | CContains i k => ((f, bs), BBool (existsb (beq k) (bkeys (nth i bs b0))))
+  | CLen i => ((f, bs), BNum (N.of_nat (length (bkeys (nth i bs b0)))))
+  | CItems i => on i b_items
+  | CValues i => on i b_values
+  | CDup i j => ((f, upd bs j (nth i bs b0)), BOk)
   end.
 
 Fixpoint brun (w : bworld) (ops : list bop) : list bres * bworld :=
@@ -138,6 +164,10 @@ Definition bres_eqb (a b : bres) : bool :=
   | BVal x, BVal y => beq x y
   | BKeys x, BKeys y => set_eqb x y
   | (BErr _ | BOther), (BErr _ | BOther) => true   (* a failure is a failure: exception classes are not part of the property *)
+  | BBool x, BBool y => Bool.eqb x y
+  | BNum x, BNum y => x =? y
+  | BItems x, BItems y => perm_eqb pair_eqb x y      (* a set of keys is iterated in no particular order *)
+  | BVals x, BVals y => perm_eqb beq x y
   | _, _ => false
   end.
 
